@@ -4,10 +4,10 @@
  * storage and is constructed by the real PARSEC_OBJ_CONSTRUCT (real parsec_class_initialize,
  * parsec_object.c linked).  NT threads each start with ONE reference (the constructor's for
  * thread 0, one PARSEC_OBJ_RETAIN by main for each other thread, before the threads start) and
- * execute a symbolic script of K steps: RETAIN (allowed while the thread holds >= 1 reference),
- * RELEASE (one of its own references), or nothing; at the end of its script a thread releases
- * everything it still holds.  "A thread releases only references it holds" is the caller
- * contract of the property and is enforced by construction.
+ * execute a symbolic script of K steps (KA steps for thread 0, KB for the others): RETAIN, RELEASE
+ * or nothing.  The scripts are constrained (VASSUME, before the threads start) to respect
+ * ownership -- a thread retains or releases only while it holds >= 1 reference -- and to give up
+ * everything: releases = 1 + retains per thread.  This is the caller contract of the property.
  * All sequentially consistent interleavings (at memory access granularity) of the real
  * parsec_obj_update() / PARSEC_OBJ_RELEASE code are explored by CBMC.
  *
@@ -87,28 +87,42 @@ static void take_one(void)
     VP_ATOMIC_BEGIN(); outstanding++; VP_ATOMIC_END();
 }
 
+#ifndef KA
+#define KA K
+#endif
+#ifndef KB
+#define KB K
+#endif
+#define KMAX (KA > KB ? KA : KB)
+static int klen(int t) { return t == 0 ? KA : KB; }
+
 static void *worker(void *arg)
 {
     int me = (int)(long)arg;
-    int held = 1;
-    for (int k = 0; k < K; k++) {
+    for (int k = 0; k < KMAX; k++) {
+        if (k >= klen(me)) continue;
         int op = script[me][k];
-        if (op == 1 && held >= 1) { take_one(); held++; }
-        else if (op == 2 && held >= 1) { give_up_one(); held--; }
+        if (op == 1) take_one();
+        else if (op == 2) give_up_one();
     }
-    for (int k = 0; k < K + 1; k++) if (held > 0) { give_up_one(); held--; }
     return 0;
 }
 
 int main(void)
 {
     int nret = 0, nrel = 0;
-    for (int t = 0; t < NT; t++)
-        for (int k = 0; k < K; k++) {
-            script[t][k] = IN_RANGE(0, 2);
-            if (script[t][k] == 1) nret++;
-            if (script[t][k] == 2) nrel++;
+    for (int t = 0; t < NT; t++) {
+        int held = 1;
+        for (int k = 0; k < KMAX; k++) {
+            if (k >= klen(t)) continue;
+            int op = IN_RANGE(0, 2);
+            script[t][k] = op;
+            if (op != 0) VASSUME(held >= 1);          /* ownership: only a holder may retain or release */
+            if (op == 1) { held++; nret++; }
+            if (op == 2) { held--; nrel++; }
         }
+        VASSUME(held == 0);                           /* every thread gives up everything it owns */
+    }
     PARSEC_OBJ_CONSTRUCT(&OBJ, TOP);
     VASSERTM(OBJ.super.super.super.obj_reference_count == 1, "constructed with one reference");
     outstanding = 1;
@@ -125,6 +139,10 @@ int main(void)
     VASSERTM(OBJ.super.super.super.obj_reference_count == 0, "final reference count is exactly 0");
     VASSERTM(outstanding == 0, "harness bookkeeping: all references were given up");
 
-    if (nret >= 1 && nrel >= 1 && script[0][0] == 1 && script[NT - 1][0] == 2) VWITNESS("scripts with a retain racing a release");
+    #if KA >= 3
+    if (nret >= 1 && script[0][0] == 1 && script[NT - 1][0] == 2) VWITNESS("thread 0 retains while another thread releases");
+#else
+    if (nrel == NT) VWITNESS("all threads release concurrently");
+#endif
     return 0;
 }
